@@ -188,6 +188,49 @@ def systematic():
     return cases
 
 
+def interleaved():
+    """ORACLE-ONLY scripts (the abstraction has no place for 'a message partly received', nor for the 1 ms
+    pause that ends a main-loop iteration; the model is not asked to predict these traces):
+    (a) one message delivered in two or three pieces separated by pauses below and above the 100 ms read wait,
+        with a reload (same neighbor, other routes) / API command / teardown falling INSIDE the pause;
+    (b) two sessions: the first is torn down while octets of the peer arrive after the read wait returned and
+        before the loop leaves; the second is fault-free: nothing of the first may be answered on it."""
+    from harness import hpeer
+
+    cases = []
+    tail = [['recv', 'Keepalive'], ['recv', 'UpdateOk'], ['tick', 1.0]]
+    inside = {'none': [], 'reload': [['reload', None]], 'refresh': [['refresh', None]], 'teardown': [['teardown', 4]],
+              'reload+refresh': [['reload', None, 0.03], ['refresh', None]]}
+    for kind in ('UpdateOk', 'Eor', 'Keepalive', 'Refresh', 'HeaderBadMarker', 'UpdateBadNlri', 'Notification'):
+        n = len(hpeer.wire(kind))
+        cutsets = [c for c in ([7], [19], [30], [n - 1], [7, 25]) if all(0 < x < n for x in c)]
+        for cuts in cutsets:
+            for gap in (0.04, 0.25):
+                for iname, istim in inside.items():
+                    steps = [list(x) for x in EST] + [['tick', 0.6]]
+                    edges = [0] + cuts + [-1]
+                    for k in range(len(edges) - 1):
+                        last = k == len(edges) - 2
+                        steps.append(['recv_part', [kind, edges[k], edges[k + 1]], 0.3 if last else gap])
+                        if k == 0:
+                            for st in istim:
+                                steps.append(list(st) + ([] if len(st) > 2 else [gap]))
+                    valid = kind in ('UpdateOk', 'Eor', 'Keepalive', 'Refresh') and iname != 'teardown'
+                    cases.append({'name': f'split:{kind}:{cuts}:{gap}:{iname}', 'oracle_only': True, 'expect_up': valid,
+                                  'steps': steps + (tail if valid else [['tick', 1.0]])})
+    # the same in OPENSENT / OPENCONFIRM (handshake messages arriving in pieces)
+    for gap in (0.04, 0.25):
+        cases.append({'name': f'split:handshake:{gap}', 'oracle_only': True, 'expect_up': True,
+                      'steps': [['connect_ok', None], ['recv_part', ['OpenOk', 0, 11], gap], ['recv_part', ['OpenOk', 11, -1]],
+                                ['recv_part', ['Keepalive', 0, 18], gap], ['recv_part', ['Keepalive', 18, -1]], ['tick', 1.0]] + tail})
+    session2 = [['connect_ok', None], ['recv', 'OpenOk'], ['recv', 'Keepalive'], ['tick', 1.0], ['recv', 'UpdateOk'], ['recv', 'Keepalive'], ['tick', 1.0]]
+    for kind in ('HeaderBadMarker', 'HeaderShortLen', 'UnknownType', 'Notification', 'UpdateBadNlri', 'OpenBadVersion', 'Keepalive'):
+        for code in (2, 4):
+            cases.append({'name': f'two-sessions:teardown-race:{kind}:{code}', 'oracle_only': True, 'expect_up': True,
+                          'steps': [list(x) for x in EST] + [['tick', 0.6], ['teardown_race', [code, kind], 0.5]] + session2})
+    return cases
+
+
 def random_case(rng, maxlen):
     n = rng.randint(3, maxlen)
     steps = []
@@ -449,7 +492,8 @@ def oracle(log, res, which=('C05', 'C10')):
         if len(notifs) > 1:
             bad.append(('C10:two-notifications', f'{notifs}'))
         evname = f'{name}-{arg}' if name == 'Recv' else name
-        if name == 'Recv' and arg in ('Notification', 'NotificationShort') and notifs:
+        # (a Cease for a teardown requested BEFORE the peer's NOTIFICATION was looked at is not an answer: the two crossed)
+        if name == 'Recv' and arg in ('Notification', 'NotificationShort') and [n for n in notifs if not ((td0 and n[1] == 6) or (pb0 and n[1:3] == (6, 0)))]:
             bad.append((f'C10:notification-answered:{ST_NAME[fsm0]}', f'a received NOTIFICATION was answered with {notifs}'))
         # a session ended by a received message or a timer must be told why
         if (name == 'Recv' and arg not in ('Notification', 'NotificationShort')) or name in ('HoldExpire', 'OpenWaitExpire'):
@@ -485,6 +529,23 @@ def oracle(log, res, which=('C05', 'C10')):
             bad.append((f'C05:accepted-transport-never-served:{ST_NAME.get(_state_when_closed(log, tid), "?")}',
                         f'transport {res["owned_open"]} was accepted {age} s ago, the peer task still waits on transport {tid} which it closed; nothing was written on or read from the accepted transport and it is not closed'))
     return [b for b in bad if b[0].split(':')[0] in which]
+
+
+def expectations(case, res, which):
+    """what a script promises by construction: `expect_up` - every message of the remote speaker is valid (or the
+    faults were all on an EARLIER transport) and nothing asks ExaBGP to end the last session: it must be up at
+    the end, and nothing may have ended it on the way"""
+    out = []
+    if case.get('expect_up') and 'C10' in which:
+        skipped = set(res.get('skipped', []))
+        # a shrunk script that lost its handshake promises nothing
+        kinds = [s[1] if s[0] == 'recv' else (s[1][0] if s[0] == 'recv_part' else None) for k, s in enumerate(case['steps']) if k not in skipped]
+        if res.get('final_fsm') != 32 and 'Keepalive' in kinds and 'OpenOk' in kinds and not skipped:
+            last = [e for e in res['log'] if e[0] == 'w' and e[2] == 'NOTIFICATION']
+            said = f'{last[-1][3]}/{last[-1][4]}' if last else 'nothing'
+            out.append((f'C10:fault-free-session-ended:{said}',
+                        f'the last session received only valid messages and no request to stop, it is in {ST_NAME.get(res.get("final_fsm"))} at the end; last NOTIFICATION written: {said}'))
+    return out
 
 
 def _state_when_closed(log, tid):
@@ -668,6 +729,8 @@ def campaign(run: Run, tier, seed, which, cases_override=None):
     n_random = (200 if tier == 'quick' else 6000) if cases_override is None else 0
     maxlen = 12 if tier == 'quick' else 30
     cases += [random_case(rng, maxlen) for _ in range(n_random)]
+    if cases_override is None:
+        cases += interleaved()
     if tier != 'quick' and cases_override is None:
         # small scope: every pair of stimuli after every prefix that reaches OPENSENT or later
         small = [['recv', k] for k in ('OpenOk', 'Keepalive', 'UpdateOk', 'Notification', 'UnknownType', 'OpenBadAs', 'UpdateBadNlri', 'Refresh')] + [
@@ -693,6 +756,8 @@ def campaign(run: Run, tier, seed, which, cases_override=None):
             continue
         steps, n, problems = abstract(r['log'])
         notes.update(n)
+        if c.get('oracle_only'):
+            continue  # judged by the oracle only (see interleaved())
         absd[i] = steps
         items.append((i, steps))
         for p in problems:
@@ -733,7 +798,7 @@ def campaign(run: Run, tier, seed, which, cases_override=None):
     for i, (c, r) in enumerate(zip(cases, results)):
         if 'error' in r:
             continue
-        for sig, what in oracle(r['log'], r, which):
+        for sig, what in oracle(r['log'], r, which) + expectations(c, r, which):
             failing.setdefault(sig, (i, what))
     mine = set(CLAUSES[:5]) if tuple(which) == ('C05',) else (set(CLAUSES[5:]) if tuple(which) == ('C10',) else set(CLAUSES))
     disagree = []
@@ -744,9 +809,10 @@ def campaign(run: Run, tier, seed, which, cases_override=None):
     run.obligation('the Spec_Fsm checkers (Coq) flag no observed trace that the python oracle accepts', not disagree,
                    '; '.join(f"{cases[i]['name']} {cases[i]['steps']}: {f}" for i, f in disagree[:3]))
     for n_sig, (sig, (i, what)) in enumerate(sorted(failing.items())):
-        def fails(cand, sig=sig):
+        def fails(cand, sig=sig, proto=cases[i]):
+            cand = dict(proto, steps=cand['steps'])
             r = _worker(cand)
-            return 'error' not in r and any(s == sig for s, _ in oracle(r['log'], r, which))
+            return 'error' not in r and any(s == sig for s, _ in oracle(r['log'], r, which) + expectations(cand, r, which))
         # shrinking re-runs the rig: the first few signatures are shrunk, the others are reported as found
         small = shrink(cases[i], fails) if (len(cases[i]['steps']) <= 14 and n_sig < 6) else cases[i]
         r = _worker(small)
@@ -771,6 +837,12 @@ def campaign(run: Run, tier, seed, which, cases_override=None):
         'stimuli_histogram': dict(ev_hist.most_common()),
         'script_families': dict(cp_hist.most_common()),
         'observations_not_flagged': dict(notes),
+        'oracle_only_scripts': {
+            'count': sum(1 for c in cases if c.get('oracle_only')),
+            'why': 'messages delivered in pieces around the 100 ms read wait with reload / API command / teardown inside the pause, '
+                   'and two-session scripts where octets arrive in the last 1 ms pause of the torn-down session: Model_Session has no '
+                   'state for a partly received message, these traces are judged by the property oracle only',
+        },
         'spec_checker_failures': {cases[i]['name']: f for i, f in list(spec_bad.items())[:20]},
     })
     for i, steps in items[:3]:
